@@ -457,18 +457,18 @@ func (x *Exec) load(st *State, pv Val, pos token.Pos) (Val, error) {
 	if pv.P != nil {
 		nn := pv.P.NonNil()
 		x.oblig("nil", pos, "nil pointer load", st.PC, nn)
-		return x.named(u.LoadPtr(st, pv.P, pt.Elem()), "ld"), nil
+		return x.loaded(st, u.LoadPtr(st, pv.P, pt.Elem()), "ld"), nil
 	}
 	ref := pv.One()
 	x.oblig("nil", pos, "nil pointer load", st.PC, Neq(ref, IntLit(0)))
 	switch classify(pt.Elem()) {
 	case KStruct:
-		return x.named(u.LoadStruct(st, ref, pt.Elem()), "ld"), nil
+		return x.loaded(st, u.LoadStruct(st, ref, pt.Elem()), "ld"), nil
 	case KOpaque:
 		return Val{T: pt.Elem()}, nil
 	}
 	v := u.LoadAddr(st, Addr{Kind: ACell, T: pt.Elem(), Ref: ref})
-	return x.named(v, "ld"), nil
+	return x.loaded(st, v, "ld"), nil
 }
 
 // named gives loaded scalar slots a name and their range facts.
@@ -491,6 +491,16 @@ func (x *Exec) named(v Val, prefix string) Val {
 	}
 	if x.quantDepth == 0 {
 		x.u.assumeWellFormed(out)
+	}
+	return out
+}
+
+// loaded names a value read from the heap by the code and states the typing facts of that value
+// (ranges, slice well-formedness, "identities stored in the heap exist").
+func (x *Exec) loaded(st *State, v Val, prefix string) Val {
+	out := x.named(v, prefix)
+	if x.quantDepth == 0 {
+		x.u.assumeValExisting(st, out)
 	}
 	return out
 }
